@@ -120,7 +120,26 @@ def inplace_param_mutations(fi: FuncInfo, c: Contract) -> List[Tuple[str, int, s
         if isinstance(n, ast.Subscript) and isinstance(n.ctx, (ast.Store, ast.Del)) and isinstance(n.value, ast.Name) \
                 and n.value.id in alias:
             out.append((alias[n.value.id], n.lineno, f"`{n.value.id}[...] = ...`"))
-    return [(p, ln, why) for p, ln, why in out if p not in allowed]
+    # a parameter that the function also *rebinds* (`worklist = worklist[1:]`): the name may denote a fresh object at the
+    # mutation; for heap objects (seq lists, dicts) whose components are not in `modifies` the heap frame obligations decide
+    # (`forall r < alloc0: unchanged`), so the flow-insensitive syntactic flag is dropped there
+    rebinds = set()
+    for n in ast.walk(node):
+        if isinstance(n, (ast.Assign, ast.AnnAssign, ast.AugAssign)):
+            tgts = n.targets if isinstance(n, ast.Assign) else [n.target]
+            for t in tgts:
+                if isinstance(t, ast.Name):
+                    rebinds.add(t.id)
+    heap_checked = set()
+    for a in node.args.posonlyargs + node.args.args:
+        ty = c.params.get(a.arg) or ty_from_ast(a.annotation, fi.globals)
+        if ty is None or a.arg not in rebinds:
+            continue
+        if ty.kind == "list" and getattr(ty, "view", "seq") == "seq" and not any(m.startswith("L.") for m in c.modifies):
+            heap_checked.add(a.arg)
+        if ty.kind == "dict" and not any(m.startswith("D.") for m in c.modifies):
+            heap_checked.add(a.arg)
+    return [(p, ln, why) for p, ln, why in out if p not in allowed and p not in heap_checked]
 
 
 def verify_function(c: Contract, timeout_s: float = 10.0, solve: bool = True) -> FunctionReport:
